@@ -1,28 +1,39 @@
 -------------------------------- MODULE HArgs --------------------------------
 \* The command-line validation of src/args.py as a decision table (growth beyond the listed properties; run with C17, which
-\* already covers the wiring of the four generation switches).  A configuration is a record of the facts validate_args looks
-\* at; Decision gives the first error (in the order the tool reports them) or "ok".
+\* already covers the wiring of the four generation switches).  A configuration records *how the user wrote the command line*;
+\* Parsed gives the values argparse hands to validate_args (defaults included - the table is about the code as it is, so the
+\* defaults are part of it); Decision gives the first error in the order the tool reports them, or "ok".
 EXTENDS Naturals, TLC, Json
-Config == [seconds : BOOLEAN, iterations : BOOLEAN, name_exists : BOOLEAN, schedule : {"none", "missing", "file"}, transformations : BOOLEAN,
-           rerun : BOOLEAN, workers : BOOLEAN, keep_all : BOOLEAN, batch : BOOLEAN, examine : BOOLEAN, replay : BOOLEAN]
+Tri == {"absent", "zero", "pos"}
+Config == [seconds : BOOLEAN, iterations : BOOLEAN, name_exists : BOOLEAN, schedule : {"none", "missing", "file"}, transformations : Tri,
+           rerun : BOOLEAN, workers : BOOLEAN, keep_all : BOOLEAN, batch : Tri, examine : BOOLEAN, replay : BOOLEAN]
+\* argparse defaults: --transformations 0, --batch 1, everything else None / False
+Truthy(x, dflt) == IF x = "absent" THEN dflt ELSE x = "pos"
+TransGiven(c) == Truthy(c.transformations, FALSE)   \* default 0
+BatchOn(c)    == Truthy(c.batch, TRUE)              \* default 1
 Decision(c) ==
   IF c.seconds /\ c.iterations THEN "seconds_and_iterations"
   ELSE IF c.name_exists THEN "name_exists"
-  ELSE IF c.schedule # "none" /\ c.transformations THEN "schedule_and_transformations"
-  ELSE IF c.schedule = "none" /\ ~c.transformations THEN "neither_schedule_nor_transformations"
+  ELSE IF c.schedule # "none" /\ TransGiven(c) THEN "schedule_and_transformations"
+  \* deliberate deviation from the documented intent: "neither a schedule nor --transformations" is tested with `is None`,
+  \* but the default is 0, so that error is unreachable (NeitherUnreachable below)
   ELSE IF c.schedule = "missing" THEN "schedule_not_a_file"
   ELSE IF c.rerun /\ c.workers THEN "rerun_in_parallel"
   ELSE IF c.rerun /\ ~c.keep_all THEN "rerun_needs_keep_all"
-  ELSE IF c.rerun /\ c.batch THEN "rerun_with_batch"
+  ELSE IF c.rerun /\ BatchOn(c) THEN "rerun_with_batch"
   ELSE IF c.examine /\ ~c.replay THEN "examine_needs_replay"
   ELSE "ok"
-\* design sanity: a configuration the tool accepts has exactly one stop condition source at most, one transformation source, ...
-AcceptedSane == \A c \in Config : Decision(c) = "ok" =>
-   /\ ~(c.seconds /\ c.iterations) /\ ~c.name_exists /\ (c.schedule = "file") # c.transformations
-   /\ (c.rerun => ~c.workers /\ c.keep_all /\ ~c.batch) /\ (c.examine => c.replay)
+\* design sanity, per configuration (checked by TLC as invariants over all initial states):
+\* what an accepted configuration guarantees
+AcceptedSane(c) == Decision(c) = "ok" =>
+   /\ ~(c.seconds /\ c.iterations) /\ ~c.name_exists /\ ~(c.schedule # "none" /\ TransGiven(c)) /\ c.schedule # "missing"
+   /\ (c.rerun => ~c.workers /\ c.keep_all /\ ~BatchOn(c)) /\ (c.examine => c.replay)
+\* named consequences of the defaults (design observations; DESIGN.md section 6)
+NeitherUnreachable(c) == Decision(c) # "neither_schedule_nor_transformations"
+RerunNeedsBatchZero(c) == (c.rerun /\ Decision(c) = "ok") => c.batch = "zero"
 VARIABLE c
 Init == c \in Config
 Next == UNCHANGED c
 Emit == PrintT(ToJson(c))
-Sane == AcceptedSane
+Sane == AcceptedSane(c) /\ NeitherUnreachable(c) /\ RerunNeedsBatchZero(c)
 =============================================================================
